@@ -59,7 +59,9 @@ class CoordAt(Value):
 
 
 SHAPE_PRESERVING = {'isnan', 'isfinite', 'abs', 'absolute', 'fft2', 'ifft2', 'real', 'imag', 'sqrt', 'copy', 'asarray', 'nan_to_num', 'conj', 'angle',
-                    'logical_not', 'invert', 'exp', 'log', 'zeros_like', 'ones_like', 'fftshift', 'ifftshift', 'isinf', 'array'}
+                    'logical_not', 'invert', 'exp', 'log', 'zeros_like', 'ones_like', 'fftshift', 'ifftshift', 'isinf', 'array',
+                    # elementwise arithmetic spelled as a function: the data with something of its own shape (or a number) -- same shape
+                    'subtract', 'add', 'multiply', 'divide', 'true_divide', 'negative', 'square'}
 
 
 class CacheStateDomain(NormDomain):
